@@ -332,13 +332,12 @@ def run_property(mod, pid, tier, seed, t0):
         'wall_s': round(wall, 2),
         'violations': violations,
     }
-    if level == 'proof' and discharged + known_refuted != len(proof_obs):
+    if level == 'proof' and discharged != len(proof_obs):
+        # level `proof` is only reported when every generated obligation is discharged; a refuted obligation that is a recorded known finding
+        # is decided (and reproduced), but the property as a whole is then not proved
         ev['level'] = 'other'
-        ev['coverage']['explanation'] = ('not every obligation is decided on this run (%d of %d discharged, %d refuted as recorded known findings; the rest are '
-                                         'undecided). ' % (discharged, len(proof_obs), known_refuted)) + ev['coverage']['explanation']
-    elif known_refuted:
-        ev['coverage']['explanation'] = ('%d of %d obligations are refuted and reproduce as the recorded known findings (decided, not proved); the other %d are discharged. '
-                                         % (known_refuted, len(proof_obs), discharged)) + ev['coverage']['explanation']
+        ev['coverage']['explanation'] = ('%d of %d obligations are discharged; %d are refuted and reproduce as the recorded known findings (decided, not proved); %d are undecided. '
+                                         % (discharged, len(proof_obs), known_refuted, len(proof_obs) - discharged - known_refuted)) + ev['coverage']['explanation']
     # runs against a scratch copy of the repository (seeded-change experiments) must not overwrite the evidence
     evdir = os.path.join(VERIF, 'evidence') if os.path.realpath(extract.REPO) == '/repo' else os.path.join(VERIF, 'evidence', '_scratch')
     os.makedirs(evdir, exist_ok=True)
